@@ -260,6 +260,9 @@ package cache
 //@   log writeDump
 //@   requires c != nil && c.backend != nil
 //@   modifies *
+// the writer's block size and the reader's block limit fit together: a full block of entries of up
+// to 8 KiB each (the figure the limit was sized for) stays within what readDump accepts
+//@   ensures dumpBlockSize * 8192 <= dumpMaximumBlockLength
 //@   ensures calls(cacheRange) == 1 && arg(cacheRange, 0, 0) == c.backend
 //@   ensures ret(cacheRange, 0) != nil ==> result_1 != nil && calls(gzClose) == 0
 //@   ensures ret(cacheRange, 0) == nil && aftercall(cacheRange, 0, len(block.Entries)) > 0 ==> calls(writeBlock) == 1 && (ret(writeBlock, 0) != nil ==> result_1 != nil)
